@@ -420,3 +420,47 @@ func C03_abstract_args() {
 		sym.Assert(root.ResolveString(req, "", nil) != nil, "a response is returned")
 	}
 }
+
+// ---- hostile but well-formed SDL
+
+var c03HostileSDL = []string{
+	"directive @a(x: Int @a) on ARGUMENT_DEFINITION",
+	"directive @a(x: Int @b) on ARGUMENT_DEFINITION directive @b(y: Int @a) on ARGUMENT_DEFINITION",
+	"directive @b(y: Int @b) on ARGUMENT_DEFINITION directive @a(x: Int @b) on ARGUMENT_DEFINITION", // a loop reached from outside it
+	"directive @a(x: Int @b) on ARGUMENT_DEFINITION directive @b(y: Int @b) on ARGUMENT_DEFINITION",
+	"directive @a(x: Int @b) on ARGUMENT_DEFINITION directive @b(y: Int @c) on ARGUMENT_DEFINITION directive @c(z: Int @b) on ARGUMENT_DEFINITION",
+	"input A { a: A! }",
+	"input A { b: B } input B { a: [A!]! }",
+	"interface I { i: I } type T implements I { i: T }",
+	"union U = U",
+	"type T implements T { x: Int }",
+	"type Query { a: [[[[[[[[Int]]]]]]]] }",
+	"extend type Query { a: Int } extend type Query { b: Int }",
+	"type Query { a: Int } extend type Query { a: Int }",
+	"enum E { A } extend enum E { A }",
+	"schema { query: Nope }",
+	"schema { query: Query } schema { query: Query } type Query { a: Int }",
+	"type Query { a(x: In = {a: {a: {a: 1}}}): Int } input In { a: In }",
+	"scalar S @d directive @d on SCALAR",
+	"type Query { a: Int @deprecated(reason: 1) }",
+}
+
+// C03_sdl_adversarial: well-formed but hostile schema documents (directive
+// loops of every shape, self-referential types, repeated extensions) into a
+// fresh root or on top of a loaded one; then the printers.
+func C03_sdl_adversarial() {
+	doc := c03HostileSDL[sym.Choice("document", len(c03HostileSDL))]
+	var root *ggql.Root
+	if sym.Choice("on top of a schema", 2) == 1 {
+		root = c03RootFor(1)
+	} else {
+		root = ggql.NewRoot(nil)
+	}
+	sym.Budget(3_000_000)
+	err := root.ParseString(doc)
+	_ = root.SDL(true, true)
+	if err == nil {
+		sym.Cover("hostile schema accepted")
+	}
+	sym.Assert(root.ResolveString("{__schema{types{name}}}", "", nil) != nil, "a response is returned")
+}
